@@ -181,6 +181,7 @@ struct Plan {
     spam: bool,                 // keep the server's loop spinning with sentinel commands while the file is parsed
     pause: Option<(u64, u64)>,  // send `pause` after a ms, `resume` b ms later
     counts: bool,               // after idle: query all messages and count them per lifecycle id
+    sort: bool,                 // open with "sort": true (messages pass the time sorter before they reach the server loop)
 }
 
 enum Ev {
@@ -330,7 +331,7 @@ fn remote_run(port: u16, path: &str, n: u64, plan: &Plan) -> (Vec<Ev>, String, O
     let mut how = String::from("dead");
     let mut counts = None;
     'run: {
-        let r = s.cmd(&format!("open {}", json!({"files":[path]})));
+        let r = s.cmd(&format!("open {}", if plan.sort { json!({"files":[path],"sort":true}) } else { json!({"files":[path]}) }));
         if !r.as_deref().map(|t| t.starts_with("ok:")).unwrap_or(false) {
             s.evs.push(Ev::Other(json!({"ev":"unexpected_reply","to":"open","text":trunc(&r.unwrap_or_default(), 200)})));
             break 'run;
@@ -432,6 +433,7 @@ struct Case {
     k: u64,                    // poll schedule of the scenario: 0 = no pacing, k > 0: parser pauses before every k-th message
     throttle: Option<String>,  // ADLT_VERIF_PARSE_THROTTLE of the server process to use
     pause: Option<(u64, u64)>,
+    sort: bool,
     pred: Option<Value>,       // TLC's prediction
     big: bool,                 // no per-message list in the trace header
 }
@@ -444,6 +446,7 @@ struct Outcome {
     lcs_frames: u64,
     n: u64,
     nontrivial: bool,
+    final_agrees: bool, // the final observables equal the prediction's (a drift is then only a different batching of the server's passes)
 }
 
 fn views_of(evs: &[Ev], base: u32) -> (Vec<Value>, Vec<u64>, Value) {
@@ -493,8 +496,11 @@ fn run_case(port: u16, work: &str, wid: usize, case_no: usize, c: &Case, force_s
     write_file(&path, &c.inputs);
     let local = local_run(&path);
     let n = local.n;
-    let plan = Plan { spam: true, pause: c.pause, counts: true };
+    let plan = Plan { spam: true, pause: c.pause, counts: true, sort: c.sort };
     let (evs, how, counts) = remote_run(port, &path, n, &plan);
+    if !c.big {
+        let _ = std::fs::remove_file(&path);
+    }
     // case-relative lifecycle ids: relative to the smallest id of the table (server side: of all entries received)
     let rbase = evs.iter().filter_map(|e| if let Ev::Lcs(l) = e { l.iter().map(|r| r.id).min() } else { None }).min().unwrap_or(1);
     let lbase = local.table.iter().map(|r| r.id).min().unwrap_or(1);
@@ -502,6 +508,7 @@ fn run_case(port: u16, work: &str, wid: usize, case_no: usize, c: &Case, force_s
     let lcs_frames = evs.iter().filter(|e| matches!(e, Ev::Lcs(_))).count() as u64;
     let mut matched = None;
     let mut contract_ok = true;
+    let mut final_agrees = true;
     if let Some(alts) = &c.pred {
         // the schedule of the server's passes is not under the driver's control: the observation is compared with the model's
         // prediction for every schedule / ECU iteration order emitted for the same input (data equality only)
@@ -514,6 +521,7 @@ fn run_case(port: u16, work: &str, wid: usize, case_no: usize, c: &Case, force_s
         };
         let mut eq_ok = false;
         let mut eq_any = false;
+        let mut eq_final = false;
         for p in alts.as_array().unwrap() {
             let pviews: Vec<Value> = p["views"].as_array().unwrap().iter().map(|v| Value::Array(by_id(v.as_array().unwrap().iter().map(pred_rec).collect()))).collect();
             let pfis: Vec<u64> = p["fi"].as_array().unwrap().iter().map(|x| x.as_u64().unwrap()).collect();
@@ -524,6 +532,9 @@ fn run_case(port: u16, work: &str, wid: usize, case_no: usize, c: &Case, force_s
                 Some((m, total)) => *total == n && pfinal.iter().all(|f| m.get(&(f["id"].as_u64().unwrap() as u32 + rbase - 1)).copied().unwrap_or(0) == f["nr"].as_u64().unwrap()),
                 None => false,
             };
+            if views.last() == pviews.last() && fis.last() == pfis.last() && eac == Value::Array(peac.clone()) && pfinal == lfinal && !other && how == "finished" && cnt_ok {
+                eq_final = true;
+            }
             if views == pviews && fis == pfis && eac == Value::Array(peac) && pfinal == lfinal && !other && how == "finished" && cnt_ok && local.panic.is_none() && p["n"].as_u64() == Some(n) {
                 eq_any = true;
                 if p["ok"].as_bool().unwrap_or(false) {
@@ -533,12 +544,13 @@ fn run_case(port: u16, work: &str, wid: usize, case_no: usize, c: &Case, force_s
         }
         matched = Some(eq_any);
         contract_ok = eq_ok || !eq_any;
+        final_agrees = eq_final;
     }
     let mut lines = Vec::new();
     if matched != Some(true) || !contract_ok || force_slow {
         let small = !c.big;
         let hdr = json!({
-            "src": c.src, "k": c.k, "throttle": c.throttle.clone().unwrap_or_default(), "n": n, "how": how, "paused": c.pause.is_some(),
+            "src": c.src, "k": c.k, "throttle": c.throttle.clone().unwrap_or_default(), "n": n, "how": how, "paused": c.pause.is_some(), "sorted": c.sort,
             "final": local.table.iter().map(|r| rec_json(r, lbase)).collect::<Vec<Value>>(),
             "ctrl_only": local.ctrl_only,
             "ecus": local.ecus.iter().map(|(e, k)| json!([e, k])).collect::<Vec<Value>>(),
@@ -569,7 +581,7 @@ fn run_case(port: u16, work: &str, wid: usize, case_no: usize, c: &Case, force_s
         }
     }
     let nontrivial = lcs_frames >= 2 || local.table.len() >= 2;
-    Outcome { lines, matched, contract_ok, frames, lcs_frames, n, nontrivial }
+    Outcome { lines, matched, contract_ok, frames, lcs_frames, n, nontrivial, final_agrees }
 }
 
 // ================================================================================================ random logs
@@ -655,6 +667,15 @@ fn main() {
     let a = Args::from_env();
     let adlt = a.str("--adlt", "adlt");
     let work = a.str("--work", ".");
+    let _ = std::fs::remove_dir_all(format!("{}/files", work));
+    if let Ok(rd) = std::fs::read_dir(&work) {
+        for e in rd.flatten() {
+            let name = e.file_name().to_string_lossy().to_string();
+            if name.starts_with("server-") && name.ends_with(".stderr") {
+                let _ = std::fs::remove_file(e.path());
+            }
+        }
+    }
     std::fs::create_dir_all(format!("{}/files", work)).unwrap();
     let nworkers = a.num("--workers", 8) as usize;
     let sample_every = a.num("--sample-every", 25);
@@ -672,7 +693,7 @@ fn main() {
             let scn: Value = serde_json::from_str(&line).unwrap();
             let inputs: Vec<In> = scn["inputs"].as_array().unwrap().iter().map(|m| grid_in(m["ecu"].as_str().unwrap(), m["rx"].as_u64().unwrap(), m["ts"].as_u64().unwrap(), m["kind"].as_str().unwrap())).collect();
             let k = scn["k"].as_u64().unwrap();
-            cases.push(Case { src: "tlc".into(), inputs, k, throttle: if k > 0 { Some(format!("{}:{}", k, t_ms)) } else { None }, pause: None, pred: Some(scn["alts"].clone()), big: false });
+            cases.push(Case { src: "tlc".into(), inputs, k, throttle: if k > 0 { Some(format!("{}:{}", k, t_ms)) } else { None }, pause: None, sort: false, pred: Some(scn["alts"].clone()), big: false });
         }
     }
     let n_tlc = cases.len();
@@ -685,7 +706,7 @@ fn main() {
         ];
         for (name, inputs) in regs {
             for k in [0u64, 1, 2] {
-                cases.push(Case { src: name.to_string(), inputs: inputs.clone(), k, throttle: if k > 0 { Some(format!("{}:{}", k, t_ms.max(40))) } else { None }, pause: None, pred: None, big: false });
+                cases.push(Case { src: name.to_string(), inputs: inputs.clone(), k, throttle: if k > 0 { Some(format!("{}:{}", k, t_ms.max(40))) } else { None }, pause: None, sort: false, pred: None, big: false });
             }
         }
     }
@@ -710,33 +731,34 @@ fn main() {
         };
         let n = inputs.len() as u64;
         // pacing: none / every message / batches; sometimes a pause while the file is parsed
+        let ks = [2u64, 3, 5, 8, 13, 21, 50, 200, 1000];
         let (k, thr) = match g.rng.below(4) {
             0 => (0, None),
             1 if n <= 40 => (1, Some(format!("1:{}", t_ms))),
-            2 => {
-                let kk = g.rng.range(2, (n / 3).max(2));
-                (kk, Some(format!("{}:{}", kk, t_ms)))
-            }
             _ => {
-                let kk = (n / 6).max(1);
+                // at most ~50 parser pauses per file
+                let fit: Vec<u64> = ks.iter().copied().filter(|k| *k <= n.max(2) && *k >= n / 50).collect();
+                let kk = if fit.is_empty() { 1000 } else { *g.rng.pick(&fit) };
                 (kk, Some(format!("{}:{}", kk, t_ms)))
             }
         };
         let pause = if g.rng.chance(1, 4) { Some((g.rng.below(60), g.rng.range(20, 200))) } else { None };
-        cases.push(Case { src: "random".into(), inputs, k, throttle: thr, pause, pred: None, big: n > 1500 });
+        let sort = g.rng.chance(1, 4);
+        cases.push(Case { src: "random".into(), inputs, k, throttle: thr, pause, sort, pred: None, big: n > 1500 });
     }
     // ---- big logs (> 100 000 messages: the detector's regular refresh is due while messages stream through)
     let big = a.num("--big", 0);
     for j in 0..a.num("--big-cases", 0) {
         let n = big + g.rng.below(big / 4 + 1);
         let inputs = g.physical_stream(n, 3, if j % 2 == 0 { 30_000 } else { 4_000 });
+        // pacings that stretch parsing beyond the statistics timer (first EacInfo 2 s after open, then every 3 s)
         let thr = match j % 3 {
             0 => None,
-            1 => Some(format!("{}:{}", 9_000, 20)),
-            _ => Some(format!("{}:{}", 30_011, 120)),
+            1 => Some(format!("{}:{}", 5_000, 150)),
+            _ => Some(format!("{}:{}", 30_011, 700)),
         };
-        let pause = if j % 4 == 3 { Some((50, 400)) } else { None };
-        cases.push(Case { src: "big".into(), inputs, k: 0, throttle: thr, pause, pred: None, big: true });
+        let pause = if j % 3 == 2 { Some((50, 400)) } else { None };
+        cases.push(Case { src: "big".into(), inputs, k: 0, throttle: thr, pause, sort: false, pred: None, big: true });
     }
 
     // ---- run: worker threads, each with its own server process per pacing (cases of one server run one after the other)
@@ -792,6 +814,7 @@ fn main() {
     let mut drift_cases: Vec<usize> = Vec::new();
     let mut pred_not_ok = 0u64;
     let mut nontrivial = 0u64;
+    let mut drift_final = 0u64;
     let res = results.lock().unwrap();
     let mut written = 0u64;
     for (i, o) in res.iter() {
@@ -805,6 +828,9 @@ fn main() {
             replayed += 1;
             if o.matched == Some(false) {
                 drift += 1;
+                if !o.final_agrees {
+                    drift_final += 1;
+                }
                 if drift_cases.len() < 20 {
                     drift_cases.push(*i);
                 }
@@ -834,7 +860,7 @@ fn main() {
     }
     println!(
         "{}",
-        json!({"cases": res.len(), "written": written, "lines": t.lines, "replayed": replayed, "fast_path": fast, "slow_path": slow, "drift": drift, "drift_cases": drift_cases, "predicted_contract_violation": pred_not_ok, "nontrivial": nontrivial,
+        json!({"cases": res.len(), "written": written, "lines": t.lines, "replayed": replayed, "fast_path": fast, "slow_path": slow, "drift": drift, "drift_final": drift_final, "drift_cases": drift_cases, "predicted_contract_violation": pred_not_ok, "nontrivial": nontrivial,
                "frames": frames, "lcs_frames": lcs_frames, "messages": msgs, "panics": pl.iter().map(|(k, c)| json!([k, c])).collect::<Vec<Value>>(),
                "server_exit": exits.lock().unwrap().clone()})
     );
